@@ -12,6 +12,7 @@ func init() {
 	vHarnesses["VH_C04_common"] = VH_C04_common
 	vHarnesses["VH_C04_fate"] = VH_C04_fate
 	vHarnesses["VH_C04_coc"] = VH_C04_coc
+	vHarnesses["VH_C04_params"] = VH_C04_params
 }
 
 // vCountEq returns how many elements of xs equal v (as a symbolic sum).
@@ -201,4 +202,93 @@ func VH_C04_coc() {
 	}
 	vAssert(int64(r) == best, "result-is-best/worst-candidate")
 	vAssert(vAnd(int64(r) >= 1, int64(r) <= 100), "result-in-1..100")
+}
+
+// vC04Param is a dice parameter: an integer (symbolic) or a non-integer value.
+func vC04Param(label string) (v *VMValue, isInt bool, i int64) {
+	switch vChoice(label+"_kind", 4) {
+	case 0:
+		i = vInt64(label)
+		return NewIntVal(IntType(i)), true, i
+	case 1:
+		return NewFloatVal(1.5), false, 0
+	case 2:
+		return NewStrVal("3"), false, 0
+	default:
+		return NewNullVal(), false, 0
+	}
+}
+
+var vC04ParamForms = []struct {
+	src string
+	// legal reports whether integer parameters x, y, z are legal for the form
+	legal func(x, y, z int64) bool
+	n     int
+}{
+	{"(x)d(y)", func(x, y, z int64) bool { return x >= 1 && y >= 1 }, 2},
+	{"2d6k(x)", func(x, y, z int64) bool { return x >= 1 }, 1},
+	{"2d6q(x)", func(x, y, z int64) bool { return x >= 1 }, 1},
+	{"2d6dh(x)", func(x, y, z int64) bool { return x >= 1 }, 1},
+	{"2d6dl(x)", func(x, y, z int64) bool { return x >= 1 }, 1},
+	{"2d6min(x)", func(x, y, z int64) bool { return true }, 1},
+	{"2d6max(x)", func(x, y, z int64) bool { return true }, 1},
+	{"b(x)", func(x, y, z int64) bool { return x >= 0 }, 1},
+	{"p(x)", func(x, y, z int64) bool { return x >= 0 }, 1},
+	{"(x)a(y)", func(x, y, z int64) bool { return x >= 1 && x <= 20000 && (y == 0 || y >= 2) }, 2},
+	{"(x)a(y)m(z)", func(x, y, z int64) bool { return x >= 1 && x <= 20000 && (y == 0 || y >= 2) && z >= 1 }, 3},
+	{"2a10k(x)", func(x, y, z int64) bool { return x >= 1 }, 1},
+	{"2a10q(x)", func(x, y, z int64) bool { return x >= 1 }, 1},
+	{"(x)c(y)", func(x, y, z int64) bool { return x >= 1 && x <= 20000 && y >= 2 }, 2},
+	{"(x)c(y)m(z)", func(x, y, z int64) bool { return x >= 1 && x <= 20000 && y >= 2 && z >= 1 }, 3},
+}
+
+//vh:prop=C04 tiers=quick,thorough sigkeys=form,x_kind,y_kind,z_kind summaries=Roll:roll-log unwind=4 unwind_ok=1 maxsteps=30000000 budget_s=1200 bounds="parameter validation through the VM syntax: 15 dice forms whose parameters x, y, z are variables ranging over {integer (64-bit symbol), float, string, null}: a non-integer or out-of-range parameter (count/sides/keep < 1, pool outside 1..20000, add-line 1 or < 0, sides/threshold < 1, negative bonus count) must be rejected with an error; legal tuples must not be (pools capped at 3 by the unwind bound for the legal case)"
+func VH_C04_params() {
+	fi := vParam("form", -1)
+	if fi < 0 {
+		fi = vChoice("form", len(vC04ParamForms))
+	}
+	f := vC04ParamForms[fi]
+	vm := vNewVM()
+	vm.Config.OpCountLimit = 200000
+	var ints [3]int64
+	allInt := true
+	names := []string{"x", "y", "z"}
+	for k := 0; k < f.n; k++ {
+		if k == 2 {
+			// the sides parameter of pools: representative integers (a symbolic
+			// side count would make every die of the pool fork)
+			switch vChoice("z_kind", 6) {
+			case 0, 1, 2, 3:
+				i := []int64{-1, 0, 1, 10}[vChoice("z_val", 4)]
+				vm.Attrs.Store("z", NewIntVal(IntType(i)))
+				ints[2] = i
+			case 4:
+				vm.Attrs.Store("z", NewFloatVal(1.5))
+				allInt = false
+			default:
+				vm.Attrs.Store("z", NewStrVal("3"))
+				allInt = false
+			}
+			continue
+		}
+		v, isInt, i := vC04Param(names[k])
+		vm.Attrs.Store(names[k], v)
+		ints[k] = i
+		allInt = allInt && isInt
+	}
+	err := vm.Run(f.src)
+	vReach("ran")
+	if !allInt {
+		vAssert(err != nil, "non-integer-parameter-is-rejected")
+		return
+	}
+	if f.legal(ints[0], ints[1], ints[2]) {
+		// (counts beyond the operation budget are legitimately refused)
+		if ints[0] <= 1000 && ints[1] <= 1000 {
+			vAssert(err == nil, "legal-parameters-are-accepted")
+		}
+	} else {
+		vAssert(err != nil, "illegal-parameters-are-rejected")
+	}
 }
